@@ -205,7 +205,8 @@ func TestC02(t *testing.T) {
 			desc := p.Op + " " + p.SQL
 			pts = append(pts, crashPoint{Seq: p.Seq, After: false, Mode: "kill", Desc: desc, H: p.Height})
 			pts = append(pts, crashPoint{Seq: p.Seq, After: true, Mode: "kill", Desc: desc, H: p.Height})
-			if p.Op != "begin" && p.Op != "commit" && p.Op != "rollback" {
+			if p.Op != "begin" && p.Op != "commit" && p.Op != "rollback" && (tier() != "thorough" || p.InTx || p.Seq%4 == 0) {
+				// thorough: the error mode covers every statement of the block transaction and a quarter of the pool reads
 				if p.Site != "" && Open(p.Site) {
 					// the error would be swallowed by a call site registered as a known finding (C10)
 					st.Exclude(p.Site)
